@@ -127,6 +127,7 @@ class Engine:
         self.dag = BDag()
         self.solver = make_solver(self.dag)
         self.rand = RandomEvaluator(self.dag)
+        self.dag.sim = self.rand
         self.precheck_hits = 0
         self._sat_cache = {}
         self.prune_queries = 0
@@ -203,6 +204,12 @@ class Engine:
             return False
         return self.dag.and_(g, self.g()) != FALSE
 
+    def concrete(self):
+        """context in which lifted code runs as plain concrete code (no path condition): used for protocol
+        methods (__hash__, __eq__, __str__, __lt__) of fully concrete objects, whose result cannot depend on
+        the path on which a native caller (dict lookup, sorted, format) happens to invoke them"""
+        return _Concrete(self)
+
     def sat_guard_global(self, g):
         """like sat_guard but independent of the current path (for pruning persistent cells)"""
         if g == FALSE:
@@ -214,6 +221,8 @@ class Engine:
         if r is None:
             if self.rand.witness(self.assumptions + [g]) is not None:
                 r = True
+            elif self.rand.exact:
+                r = False
             else:
                 self.prune_queries += 1
                 res, _ = self.solver.check(self.assumptions + [g], want_model=False, timeout_s=30)
@@ -240,6 +249,8 @@ class Engine:
         if r is None:
             if self.rand.witness(self.assumptions + [full]) is not None:
                 r = True
+            elif self.rand.exact:
+                r = False
             else:
                 self.prune_queries += 1
                 res, _ = self.solver.check(self.assumptions + [full], want_model=False, timeout_s=30)
@@ -373,6 +384,22 @@ class Engine:
             out = self.prune(ded, 512)
         return out
 
+    def _inst_nopath(self, x):
+        out = self._inst(x)
+        if len(out) > 1:
+            seen = {}
+            ded = []
+            for g, v in out:
+                k = canon(v)
+                if k in seen:
+                    i = seen[k]
+                    ded[i] = (self.dag.or_(ded[i][0], g), ded[i][1])
+                else:
+                    seen[k] = len(ded)
+                    ded.append((g, v))
+            out = ded
+        return out
+
     def _inst(self, x):
         """instantiate to [(lit, fully concrete hashable-ish value)]"""
         d = self.dag
@@ -474,6 +501,42 @@ class Engine:
                 return self.mk(res)
             return call
         return self.mk(vals)
+
+
+class _Concrete:
+    def __init__(self, eng):
+        self.eng = eng
+
+    def __enter__(self):
+        e = self.eng
+        self.saved = (e.gstack, e.fstack, e.cum, e.dead, e.frames, e.false_cnt)
+        e.gstack, e.fstack, e.cum, e.dead, e.frames, e.false_cnt = [], [], [TRUE], FALSE, [Frame(0)], {}
+
+    def __exit__(self, et, ev, tb):
+        e = self.eng
+        e.gstack, e.fstack, e.cum, e.dead, e.frames, e.false_cnt = self.saved
+        return False
+
+
+def WRAP_DUNDERS(cls):
+    import functools
+    for name in ('__hash__', '__eq__', '__ne__', '__lt__', '__le__', '__gt__', '__ge__', '__str__', '__repr__'):
+        f = cls.__dict__.get(name)
+        if f is None or not callable(f) or getattr(f, '__wrapped_dunder__', False):
+            continue
+
+        def make(f):
+            @functools.wraps(f)
+            def wrapper(self, *args):
+                if E.gstack and not deep_sym(self) and not any(deep_sym(a) for a in args):
+                    with E.concrete():
+                        return f(self, *args)
+                return f(self, *args)
+            wrapper.__wrapped_dunder__ = True
+            wrapper.__lifted__ = True
+            return wrapper
+        setattr(cls, name, make(f))
+    return cls
 
 
 E = Engine()
@@ -1074,6 +1137,9 @@ class GList:
                 E.pop()
 
     def insert(self, i, x):
+        if self.alts is None and not is_sym(i) and i == 0:
+            self.gseq.insert(0, (E.g(), x))     # a guarded sequence can be extended at either end
+            return
         alts = self._need_alts()
         if is_sym(i):
             raise Unsupported('insert at symbolic index')
@@ -1089,21 +1155,23 @@ class GList:
 
     def pop(self, i=-1):
         alts = self._need_alts()
-        if is_sym(i):
-            raise Unsupported('pop at symbolic index')
         d = E.dag
         g0 = E.g()
         res = []
         new = []
         for g, t in alts:
-            if len(t) == 0 or not (-len(t) <= i < len(t)):
-                E.fail(d.and_(g0, g), 'IndexError', 'pop from empty list')
-                new.append((g, t))
-                continue
-            res.append((g, t[i]))
-            tl = list(t)
-            del tl[i]
-            new.append((g, tuple(tl)))
+            for h, iv in E.inst(i):
+                gh = d.and_(g, h)
+                if gh == FALSE or E.known_false(gh):
+                    continue
+                if len(t) == 0 or not (-len(t) <= iv < len(t)):
+                    E.fail(d.and_(g0, gh), 'IndexError', 'pop index out of range')
+                    new.append((gh, t))
+                    continue
+                res.append((gh, t[iv]))
+                tl = list(t)
+                del tl[iv]
+                new.append((gh, tuple(tl)))
         self._set(new)
         return E.mk(res)
 
@@ -1279,6 +1347,65 @@ def ITER(x):
     return [(TRUE, v) for v in x]
 
 
+def _objlike(x):
+    if isinstance(x, U):
+        return any(getattr(type(v), '__lifted_class__', False) for _, v in x.alts)
+    return getattr(type(x), '__lifted_class__', False)
+
+
+_EQ_CACHE = {}
+
+
+def _concrete_eq(v, w):
+    """== of two fully concrete values through the real (lifted) __eq__, cached by canonical value"""
+    key = (canon(v), canon(w))
+    r = _EQ_CACHE.get(key)
+    if r is None:
+        r = E.lit(v == w)
+        if r not in (TRUE, FALSE):
+            raise Unsupported('symbolic result of == on concrete values')
+        if len(_EQ_CACHE) < 2000000:
+            _EQ_CACHE[key] = r
+    return r
+
+
+def _stamp(x, depth=0):
+    """cheap identity stamp of a value: changes whenever the value (or a container reachable from it) is
+    modified; used to validate cached instantiations"""
+    if isinstance(x, _PRIM):
+        return x
+    if isinstance(x, (U, SB, FSet)):
+        return id(x)
+    if isinstance(x, GList):
+        return ('L', id(x), id(x.alts), len(x.alts) if x.alts is not None else -1, len(x.gseq) if x.gseq is not None else -1)
+    if isinstance(x, GSet):
+        return ('S', id(x), getattr(x, '_ver', 0), len(x.m))
+    if isinstance(x, tuple):
+        return tuple(_stamp(c_, depth + 1) for c_ in x)
+    dct = getattr(x, '__dict__', None)
+    if dct is not None and getattr(type(x), '__lifted_class__', False) and depth < 5:
+        return (id(x),) + tuple(_stamp(v, depth + 1) for v in dct.values())
+    return ('id', id(x))
+
+
+_INST_CACHE = {}
+
+
+def inst_cached(x):
+    if not getattr(type(x), '__lifted_class__', False):
+        return E.inst(x)
+    st = _stamp(x)
+    ent = _INST_CACHE.get(id(x))
+    if ent is not None and ent[0] == st and ent[2] is x:
+        # guards of a cached instantiation are path independent (they only describe the value)
+        return ent[1]
+    r = E._inst_nopath(x)
+    if len(_INST_CACHE) > 200000:
+        _INST_CACHE.clear()
+    _INST_CACHE[id(x)] = (st, r, x)
+    return r
+
+
 def EQ(a, b):
     """equality literal"""
     d = E.dag
@@ -1286,6 +1413,18 @@ def EQ(a, b):
     b = _setview(b)
     if a is b:
         return TRUE
+    if (_objlike(a) or _objlike(b)) and not isinstance(a, SB) and not isinstance(b, SB):
+        # objects of library classes (possibly with symbolic fields, possibly unions): enumerate the concrete
+        # instances of both sides once and run the real __eq__ on each distinct pair of concrete values
+        ia, ib = inst_cached(a), inst_cached(b)
+        if len(ia) * len(ib) <= 20000:
+            terms = []
+            for g, v in ia:
+                for h, w in ib:
+                    gh = d.and_(g, h)
+                    if gh != FALSE and _concrete_eq(v, w) == TRUE:
+                        terms.append(gh)
+            return d.any_(terms)
     if isinstance(a, (U, SB)) or isinstance(b, (U, SB)):
         if isinstance(a, U) and not isinstance(b, (U, SB)) or isinstance(b, U) and not isinstance(a, (U, SB)):
             u, o = (a, b) if isinstance(a, U) else (b, a)
@@ -1505,6 +1644,8 @@ def WHILE(fr, lp, testthunk, where=''):
             # ask the solver whether another iteration is feasible at all
             if E.rand.witness(E.assumptions + [full]) is not None:
                 E.precheck_hits += 1
+            elif E.rand.exact:
+                return
             else:
                 E.solver_calls += 1
                 r, _ = E.solver.check(E.assumptions + [full], want_model=False)
@@ -1546,6 +1687,33 @@ def RAISE(exc):
         E.fail(g, type(exc).__name__, str(exc))
 
 
+class _Guarded:
+    """push a guard around the evaluation of a sub-expression; an exception raised under it is recorded at
+    exactly that guard (and dropped if the guarded path is infeasible)"""
+    __slots__ = ('lit', 'failed')
+
+    def __init__(self, lit):
+        self.lit = lit
+        self.failed = False
+
+    def __enter__(self):
+        E.push(self.lit)
+        return self
+
+    def __exit__(self, et, ev, tb):
+        g = E.g()
+        E.pop()
+        if et is None:
+            return False
+        if issubclass(et, LiftError) or not issubclass(et, Exception):
+            return False
+        if g == TRUE:
+            return False
+        E.fail(g, et.__name__, str(ev))
+        self.failed = True
+        return True
+
+
 def AND(*thunks):
     """x and y and ...: the first operand that is falsy, else the last one (values, not booleans)"""
     v = thunks[0]()
@@ -1556,11 +1724,11 @@ def AND(*thunks):
         return v
     if l == TRUE:
         return AND(*thunks[1:])
-    E.push(l)
-    try:
+    if E.dag.and_(E.g(), l) == FALSE:
+        return v            # the first operand is never truthy on this path
+    rest = BOTTOM
+    with _Guarded(l):
         rest = AND(*thunks[1:])
-    finally:
-        E.pop()
     if isinstance(v, (SB, bool)) and isinstance(rest, (SB, bool)):
         return E.sb(E.dag.and_(l, E.lit(rest)))
     return E.merge(l, rest, v)
@@ -1576,11 +1744,11 @@ def OR(*thunks):
         return v
     if l == FALSE:
         return OR(*thunks[1:])
-    E.push(l ^ 1)
-    try:
+    if E.dag.and_(E.g(), l ^ 1) == FALSE:
+        return v            # the first operand is always truthy on this path
+    rest = BOTTOM
+    with _Guarded(l ^ 1):
         rest = OR(*thunks[1:])
-    finally:
-        E.pop()
     if isinstance(v, (SB, bool)) and isinstance(rest, (SB, bool)):
         return E.sb(E.dag.or_(l, E.lit(rest)))
     return E.merge(l, v, rest)
@@ -1598,16 +1766,13 @@ def IFEXP(test, a, b):
         return a()
     if c == FALSE:
         return b()
-    E.push(c)
-    try:
-        va = a()
-    finally:
-        E.pop()
-    E.push(c ^ 1)
-    try:
-        vb = b()
-    finally:
-        E.pop()
+    va = vb = BOTTOM
+    if E.dag.and_(E.g(), c) != FALSE:
+        with _Guarded(c):
+            va = a()
+    if E.dag.and_(E.g(), c ^ 1) != FALSE:
+        with _Guarded(c ^ 1):
+            vb = b()
     return E.merge(c, va, vb)
 
 
@@ -2243,22 +2408,16 @@ def COMP_FOR(iterable, shape, lam):
     for g, v in ITER(iterable):
         if not E.feasible(g):
             continue
-        E.push(g)
-        try:
+        with _Guarded(g):
             lam(*_bind(shape, v))
-        finally:
-            E.pop()
 
 
 def COMP_IF(cond, thunk):
     c = E.lit(cond)
     if not E.feasible(c):
         return
-    E.push(c)
-    try:
+    with _Guarded(c):
         thunk()
-    finally:
-        E.pop()
 
 
 def COMP_EMIT(v):
